@@ -11,6 +11,10 @@ def ident (s : String) : Identity :=
 /-- `tls <client identity> <server identity>`: CA 0 is the one both sides are configured with -/
 def run (t : List String) : String :=
   match t with
+  -- a set of the bundled generator with `--no-expiry` on both sides: its own CA (2) certifies both
+  | ["noexp", "noexp"] => if handshake 2 2 (.signedBy 2 "localhost") (.signedBy 2 "localhost") then "accept" else "refuse"
+  -- the trusted client certificate in the hands of a client configured with CA 1
+  | ["wrongca", s] => if handshake 0 1 (.signedBy 0 "localhost") (ident s) then "accept" else "refuse"
   | [c, s] => if handshake 0 0 (ident c) (ident s) then "accept" else "refuse"
   | _ => "bad-op"
 
